@@ -27,5 +27,19 @@ THOROUGH_DEFAULT = lambda: (zoo(["all", "all-li", "all-nolog", "none", "plans", 
                             + zoo(["all"], gcc=(True,), std="gnu++11") + test_units())
 
 
+def parts(cfg, ps, gcc=True, flavour="include", std="gnu++17"):
+    return [u for u in zoo_units(cfg, gcc, flavour, std) if int(u.name[3:]) in ps]
+
+
+# quick-tier overrides: effect-heavy checks analyse the parts that contain both registry specialisations (zoo2: orthogonal root,
+# zoo3: no orthogonal region at all) instead of the whole zoo; the thorough tier always takes everything
+QUICK = {
+    "C04": lambda: parts("all", (2, 3), True) + parts("all", (3,), False),
+    "C09": lambda: parts("all", (2, 3), True) + parts("all", (3,), False),
+}
+
+
 def plan(prop, tier):
-    return QUICK_DEFAULT() if tier == "quick" else THOROUGH_DEFAULT()
+    if tier == "quick":
+        return QUICK.get(prop, QUICK_DEFAULT)()
+    return THOROUGH_DEFAULT()
